@@ -1,6 +1,6 @@
 CLAIM = ("lha_decoder_read: self-composition of a split schedule against one maximal read over a scripted decoder with "
          "symbolic chunk sizes/contents (valid and failing streams), symbolic declared length, symbolic read sizes incl. 0 "
-         "and oversize; length/CRC accessors against an independent CRC-16; monitor sequence.")
+         "and oversize; length/CRC accessors against an independent CRC-16; monitor sequence 0,1,2,... for every attach point; inductive single-read step from an arbitrary bookkeeping state (never beyond the declared length for any size_t length, short only at the end or after the method ran dry); lha_decoder_new incl. failing init (nothing leaked).")
 ASSUMPTIONS = ["decoder read() contract: returns <= max_read bytes, 0 = end/failure",
                "memcpy modelled by a byte loop"]
 U = ["lib/lha_decoder.c", "lib/crc16.c"]
